@@ -436,6 +436,7 @@ type Clause struct {
 	Expr  *Node
 	Src   string
 	Loop  int // invariant/decreases: loop ordinal
+	Lhs   *Node // ghost_set target
 }
 
 type AssignItem struct {
@@ -781,6 +782,21 @@ func parseClause(c *Contract, word, rest string) error {
 				c.Assigns = append(c.Assigns, AssignItem{Src: it, Expr: e, Upto: upto})
 			}
 		}
+	case "ghost_set":
+		// ghost_set <location> = <expr> : ghost assignment performed at every normal return
+		eq := strings.Index(rest, " = ")
+		if eq < 0 {
+			return fmt.Errorf("ghost_set needs 'location = expr'")
+		}
+		lhs, err := parseSpecExpr(rest[:eq])
+		if err != nil {
+			return err
+		}
+		rhs, err := parseSpecExpr(rest[eq+3:])
+		if err != nil {
+			return err
+		}
+		c.Clauses = append(c.Clauses, &Clause{Kind: "ghost_set", Label: fmt.Sprintf("ghost%d", len(c.Clauses)), Expr: rhs, Lhs: lhs, Src: rest})
 	case "requires", "ensures", "panics_only_if", "ensures_on_panic", "invariant", "decreases", "assume":
 		loop := 0
 		if word == "invariant" || word == "decreases" {
